@@ -156,6 +156,10 @@ fn make_obj(shape: &str) -> InMemDicomObject {
         obj.put(DataElement::new(tags::PIXEL_DATA, VR::OW, PrimitiveValue::from(px)));
         obj.put(DataElement::new(Tag(0x0009, 0x0010), VR::LO, "PRIVATE CREATOR"));
         obj.put(DataElement::new(Tag(0x0009, 0x1001), VR::UN, PrimitiveValue::from(vec![1u8, 2, 3, 4])));
+        // odd-length values: the writer adds a padding byte of its own after the value
+        obj.put(DataElement::new(Tag(0x0009, 0x1002), VR::OB, PrimitiveValue::from(vec![9u8, 8, 7])));
+        obj.put(DataElement::new(Tag(0x0009, 0x1003), VR::UN, PrimitiveValue::from(vec![5u8])));
+        obj.put(DataElement::new(tags::IMAGE_COMMENTS, VR::LT, "odd"));
     }
     obj
 }
